@@ -82,8 +82,13 @@ def work1(job):
     res = falsify.run_search(exe, ml, 200000, timeout=120)
     res.update({"i": i, "grammar": text, "max_len": ml})
     if res.get("status") == "none":
+        # first clause of C06 (first diagnostic at the first offending token), where the grammar qualifies
+        import viable
+        v = viable.run(text, exe, info, budget=8000, timeout=120)
+        if v.get("status") == "fail":
+            return {"i": i, "status": "first_error_mismatch", "grammar": text, "input": v.get("input"), "what": v.get("what"), "examples": v.get("examples")}
         shutil.rmtree(d, ignore_errors=True)
-        return {"i": i, "status": "accepted_ok"}
+        return {"i": i, "status": "accepted_ok" if v.get("status") != "ok" else "accepted_ok_first_error_checked"}
     res["alphabet"] = info["chars"]
     return res
 
@@ -114,11 +119,11 @@ def main():
     stats = {}
     first = int(sys.argv[4]) if len(sys.argv) > 4 else 0
     all_jobs = [(i, v, outdir) for i, v in enumerate(jobs)][first:]
-    with cf.ThreadPoolExecutor(max_workers=14) as ex:
+    with cf.ThreadPoolExecutor(max_workers=int(os.environ.get("HUNT_WORKERS", "14"))) as ex:
         for b in range(0, len(all_jobs), 280):
             for r in ex.map(work, all_jobs[b:b + 280]):
                 stats[r["status"]] = stats.get(r["status"], 0) + 1
-                if r["status"] in ("accepted_ok",):
+                if r["status"] in ("accepted_ok", "accepted_ok_first_error_checked"):
                     acc += 1
                 elif r["status"] != "rejected":
                     acc += 1
